@@ -3354,7 +3354,20 @@ iwrc jbn_merge_patch(struct jbl_node *root, struct jbl_node *patch, struct iwpoo
     return IW_ERROR_INVALID_ARGS;
   }
   iwrc rc = 0;
-  _jbl_merge_patch_node(root, patch, pool, &rc);
+  struct jbl_node *res = _jbl_merge_patch_node(root, patch, pool, &rc);
+  if (!rc && res && (res != root)) { // rfc7386: a patch which is not an object replaces the target
+    if (!pool) {                     // Heap mode: release the old members, take over the data of the clone
+      for (struct jbl_node *n = root->child, *nn; n; n = nn) {
+        nn = n->next;
+        jbn_visit2(n, 0, _jbn_allocated_destroy_visitor);
+      }
+    }
+    _jbl_copy_node_data(root, res);
+    if (!pool) {
+      free((void*) res->key);
+      free(res);
+    }
+  }
   return rc;
 }
 
